@@ -383,6 +383,27 @@ def limit_over_leftjoin(x):
     return False
 
 
+def _flat(e, k):
+    if isinstance(e, dict) and e.get("k") == k:
+        return _flat(e["l"], k) + _flat(e["r"], k)
+    return [e]
+
+
+def has_or_absorption(q):
+    """the query holds an OR one of whose branches consists only of conjuncts common to ALL branches while another branch
+    has more (a OR (a AND b), (a AND b) OR (a AND b AND c), ...): the trigger of KF-DISTRIBUTIVE-OR-ABSORPTION"""
+    if isinstance(q, list):
+        return any(has_or_absorption(x) for x in q)
+    if not isinstance(q, dict):
+        return False
+    if q.get("k") == "or":
+        branches = [set(json.dumps(c, sort_keys=True) for c in _flat(b, "and")) for b in _flat(q, "or")]
+        common = set.intersection(*branches)
+        if common and any(b <= common for b in branches) and any(not (b <= common) for b in branches):
+            return True
+    return any(has_or_absorption(v) for v in q.values())
+
+
 def case_features(it, m):
     """Features of a failing case, computed mechanically from the case and the judge's expectation;
     they make known-finding signatures specific (a different failure of the same query is not matched)."""
@@ -399,6 +420,8 @@ def case_features(it, m):
         f["delta"] = "both" if extra and missing else "extra" if extra else "missing" if missing else "order"
     f["limit_over_leftjoin"] = limit_over_leftjoin(it["q"])
     f["filter_agg"] = has_filter_agg(it["q"])
+    if has_or_absorption(it["q"]):
+        f["or_absorption"] = True
     bs = it["cfg"].get("batch_size")
     f["bs_lt_rows"] = bs is not None and any(len(d["rows"]) > bs for d in it["db"].values())
     return f
